@@ -84,7 +84,8 @@ def text(e, rnd=None):
         pad = e.get("_pad") or ""
         # a :name / @name argument ends only at whitespace, `)` or `,`; an extractor key also at a few other characters
         body = sep.join(parts)
-        return "(" + pad + ("." if dot else "") + name + (" " if parts else "") + pad + body + pad + ")"
+        # no blank may follow the opening parenthesis (the function name is read from the very next character)
+        return "(" + ("." if dot else "") + name + (" " if parts else "") + pad + body + pad + ")"
     raise ValueError(op)
 
 
@@ -196,3 +197,266 @@ def has_big_product(e):
         return False
     n = sum(1 for a in e["args"] if a["op"] == "call" and a["f"] == "range")
     return n >= 3 or any(has_big_product(a) for a in e["args"])
+
+
+# ============================================================================= typed generation (C04, C12, C13)
+NUMS_DY = ["0", "1", "2", "3", "4", "5", "7", "10", "-1", "-3", "0.5", "-0.5", "2.5", "1.25", "100", "0.125", "12", "-7.5", "1000000", "6", "8"]
+NUMS_ANY = NUMS_DY + ["0.1", "3.14", "1e3", "1.0", "-2.75", "9007199254740993", "18446744073709551615", "-9223372036854775808", "1e-7", "123456789012"]
+STRS = ["", "a", "abc", "test-123", "é", "héllo", "日本語", "a,b,c", "one two", "x", "ab", "ba", "12", "1.50", "-3e2", "A", "zz"]
+COUNTS = ["0", "1", "2", "3", "4", "5", "10"]
+
+
+def typed_input(rnd):
+    """An input object with fields of known types: n m (numbers), s t (strings), b (boolean), l (numbers), ls (strings), lo (objects), o (object), z null."""
+    num = lambda: ("num", rnd.choice(NUMS_DY if rnd.random() < 0.8 else NUMS_ANY))
+    st = lambda: ("str", cps(rnd.choice(STRS)))
+    obj = lambda: ("obj", [(cps(k), rnd.choice([num(), st(), ("bool", True), ("null",)])) for k in rnd.sample(["a", "b", "c", "k1", "é"], rnd.choice([0, 1, 2, 3]))])
+    return ("obj", [(cps("n"), num()), (cps("m"), num()), (cps("s"), st()), (cps("t"), st()), (cps("b"), ("bool", rnd.random() < 0.5)),
+                    (cps("l"), ("arr", [num() for _ in range(rnd.choice([0, 1, 2, 3, 5]))])),
+                    (cps("ls"), ("arr", [st() for _ in range(rnd.choice([0, 1, 2, 4]))])),
+                    (cps("lo"), ("arr", [("obj", [(cps("g"), st()), (cps("v"), num())]) for _ in range(rnd.choice([0, 1, 3]))])),
+                    (cps("o"), obj()), (cps("z"), ("null",))])
+
+
+FIELD_TYPES = {"n": "num", "m": "num", "s": "str", "t": "str", "b": "bool", "l": "list:num", "ls": "list:str", "lo": "list:obj", "o": "obj", "z": "null"}
+
+
+class Env:
+    def __init__(self, up=0, cur=None, vars_=None, macros=None, fresh=None):
+        self.up = up              # how many inputs lie between `.` and the typed top-level object
+        self.cur = cur            # type of `.` inside a lambda (None at top level: `.` is the typed object)
+        self.vars = dict(vars_ or {})      # name -> type
+        self.macros = dict(macros or {})   # name -> type (of the macro body evaluated on the typed object... only constant bodies)
+        self.fresh = fresh if fresh is not None else [0]
+
+    def inner(self, cur):
+        return Env(self.up + 1, cur, self.vars, self.macros, self.fresh)
+
+
+def field_expr(env, name):
+    return ext([name], up=env.up)
+
+
+def gen_typed(rnd, table, ty, depth, env):
+    """A (mostly) well-typed expression of type ty in {num,count,str,bool,list:num,list:str,list:obj,obj,any}."""
+    if rnd.random() < 0.06:
+        ty = rnd.choice(["num", "str", "bool", "list:num", "obj", "any"])       # an ill-typed argument now and then
+    base = ty.split(":")[0]
+    leafy = depth <= 0 or rnd.random() < 0.25
+    # ---- leaves
+    if leafy:
+        opts = []
+        fields = [k for k, t in FIELD_TYPES.items() if t == ty or (ty == "any") or (ty == "count" and False)]
+        if fields:
+            opts.append(lambda: field_expr(env, rnd.choice(fields)))
+        if env.cur is not None and (env.cur == ty or ty == "any"):
+            opts.append(lambda: dict(SELF))
+        vs = [n for n, t in env.vars.items() if t == ty or ty == "any"]
+        if vs:
+            opts.append(lambda: {"op": "var", "name": cps(rnd.choice(vs))})
+        ms = [n for n, t in env.macros.items() if t == ty or ty == "any"]
+        if ms:
+            opts.append(lambda: {"op": "mac", "name": cps(rnd.choice(ms))})
+        if base in ("num", "any"):
+            opts.append(lambda: lit(("num", rnd.choice(NUMS_DY if rnd.random() < 0.85 else NUMS_ANY))))
+        if base == "count":
+            opts.append(lambda: lit(("num", rnd.choice(COUNTS))))
+            opts.append(lambda: call("size", field_expr(env, rnd.choice(["l", "ls", "s", "o"]))))
+        if base in ("str", "any"):
+            opts.append(lambda: lit(("str", cps(rnd.choice(STRS)))))
+        if base in ("bool", "any"):
+            opts.append(lambda: lit(("bool", rnd.random() < 0.5)))
+        if base == "list":
+            el = ty.split(":")[1] if ":" in ty else "num"
+            mk = {"num": lambda: ("num", rnd.choice(NUMS_DY)), "str": lambda: ("str", cps(rnd.choice(STRS))),
+                  "obj": lambda: ("obj", [(cps("g"), ("str", cps(rnd.choice(["x", "y", ""])))), (cps("v"), ("num", rnd.choice(NUMS_DY)))])}[el]
+            opts.append(lambda: lit(("arr", [mk() for _ in range(rnd.choice([0, 1, 2, 3, 4]))])))
+        if base in ("obj",):
+            opts.append(lambda: lit(("obj", [(cps(k), ("num", rnd.choice(NUMS_DY))) for k in rnd.sample(["a", "b", "c", "d"], rnd.choice([0, 1, 2, 3]))])))
+        if base == "null":
+            opts.append(lambda: lit(("null",)))
+        if not opts:
+            opts.append(lambda: lit(("null",)))
+        return rnd.choice(opts)()
+    g = lambda t, d=depth - 1, e=env: gen_typed(rnd, table, t, d, e)
+    lam = lambda t, cur: gen_typed(rnd, table, t, depth - 1, env.inner(cur))
+    # ---- calls by result type
+    if base == "num":
+        k = rnd.randrange(14)
+        if k == 0:
+            return call("+", g("num"), g("num"), *( [g("num")] if rnd.random() < 0.3 else []))
+        if k == 1:
+            return call("-", g("num"), *([g("num")] if rnd.random() < 0.7 else []))
+        if k == 2:
+            return call("*", g("num"), g("num"))
+        if k == 3:
+            return call("/", g("num"), g("num"))
+        if k == 4:
+            return call("%", g("num"), g("num"))
+        if k == 5:
+            return call(rnd.choice(["abs", "ceil", "floor", "round"]), g("num"))
+        if k == 6:
+            return call("size", g(rnd.choice(["list:num", "str", "obj", "list:str"])))
+        if k == 7:
+            return call("sum", g("list:num"))
+        if k == 8:
+            return call("get", g("list:num"), g("count"))
+        if k == 9:
+            return call(rnd.choice(["first", "last"]), g("list:num"))
+        if k == 10:
+            return call("fold", g("list:num"), g("num"), call("+", ext(["so_far"]), ext(["value"])))
+        if k == 11:
+            return call("?", g("bool"), g("num"), g("num"))
+        if k == 12:
+            return call("default", g("any") if rnd.random() < 0.3 else ext(["missing"], up=env.up), g("num"))
+        return call("as_number", g("any"))
+    if base == "count":
+        k = rnd.randrange(6)
+        if k == 0:
+            return call("size", g(rnd.choice(["list:num", "str", "obj"])))
+        if k == 1:
+            return call(rnd.choice(["ceil", "floor", "round", "abs"]), lit(("num", rnd.choice(["0.5", "1.5", "2.5", "2", "-1", "1.25", "3"]))))
+        if k == 2:
+            return call(rnd.choice(["+", "*", "-"]), lit(("num", rnd.choice(["1", "0.5", "2"]))), lit(("num", rnd.choice(["1", "1.5", "2", "0.5"]))))
+        return lit(("num", rnd.choice(COUNTS)))
+    if base == "str":
+        k = rnd.randrange(12)
+        if k == 0:
+            return call("concat", g("str"), g("str"), *([g("str")] if rnd.random() < 0.3 else []))
+        if k == 1:
+            return call(rnd.choice(["head", "take", "take_last"]), g("str"), g("count"))
+        if k == 2:
+            return call("sub", g("str"), g("count"), g("count"))
+        if k == 3:
+            return call("stringify", g(rnd.choice(["num", "str", "bool", "list:num", "obj"])))
+        if k == 4:
+            return call("join", g("list:str"), *([g("str")] if rnd.random() < 0.5 else []))
+        if k == 5:
+            return call("get", g("list:str"), g("count"))
+        if k == 6:
+            return call("?", g("bool"), g("str"), g("str"))
+        if k == 7:
+            return call("tail", g("str"), g("count"))
+        if k == 8:
+            return call(rnd.choice(['"+"', '"-"', '"*"']), lit(("str", cps(rnd.choice(["12", "1.50", "-3e2", "0.001", "100"])))), g("str") if rnd.random() < 0.2 else lit(("str", cps(rnd.choice(["7", "2.5", "1E+2", "-0.5"])))))
+        if k == 9:
+            return call("as_string", g("any"))
+        if k == 10:
+            return call(rnd.choice(["first", "last"]), g("list:str"))
+        return call("default", ext(["missing"], up=env.up), g("str"))
+    if base == "bool":
+        k = rnd.randrange(12)
+        if k < 3:
+            t = rnd.choice(["num", "str", "any", "list:num"])
+            return call(rnd.choice(["=", "!=", "<", "<=", ">", ">="]), g(t), g(t))
+        if k == 3:
+            return call(rnd.choice(["and", "or"]), g("bool"), g("bool"), *([g("bool")] if rnd.random() < 0.3 else []))
+        if k == 4:
+            return call("xor", g("bool"), g("bool"))
+        if k == 5:
+            return call("not", g("bool"))
+        if k == 6:
+            return call(rnd.choice(["array?", "bool?", "null?", "number?", "object?", "string?"]), g("any"))
+        if k == 7:
+            return call("empty?", rnd.choice([g("any"), ext(["missing"], up=env.up)]))
+        if k == 8:
+            return call(rnd.choice(["all", "any"]), call("map", g("list:num"), call(rnd.choice(["<", ">", "="]), dict(SELF), lit(("num", rnd.choice(NUMS_DY))))))
+        if k == 9:
+            return call(rnd.choice(['"="', '"<"', '">="', '"!="']), lit(("str", cps(rnd.choice(["10", "1e1", "010.0", "9.99"])))), lit(("str", cps(rnd.choice(["10", "1E+1", "10.00", "11"])))))
+        if k == 10:
+            return call("?", g("bool"), g("bool"), g("bool"))
+        return call("as_boolean", g("any"))
+    if base == "list":
+        el = ty.split(":")[1] if ":" in ty else "num"
+        k = rnd.randrange(16)
+        if k == 0 and el == "num":
+            return call("map", g("list:num"), lam("num", "num"))
+        if k == 1:
+            return call("filter", g(ty), lam("bool", el))
+        if k == 2:
+            return call(rnd.choice(["sort", "sort_unique", "reverese", "pop", "pop_first"]), g(ty))
+        if k == 3:
+            return call("sort_by", g(ty), lam("num" if el != "obj" else "any", el) if el != "obj" else ext(["v"]))
+        if k == 4 and el == "num":
+            return call("range", lit(("num", rnd.choice(["0", "1", "2", "3", "5"]))))
+        if k == 5:
+            return call(rnd.choice(["push", "push_front"]), g(ty), g(el if el != "obj" else "obj"), *([g(el if el != "obj" else "obj")] if rnd.random() < 0.4 else []))
+        if k == 6:
+            return call(rnd.choice(["take", "take_last"]), g(ty), g("count"))
+        if k == 7:
+            return call("sub", g(ty), g("count"), g("count"))
+        if k == 8 and el == "str":
+            return call("keys", g("obj"))
+        if k == 9 and el == "num":
+            return call("values", lit(("obj", [(cps(k2), ("num", rnd.choice(NUMS_DY))) for k2 in rnd.sample(["a", "b", "c"], 2)])))
+        if k == 10 and el == "str":
+            return call("split", g("str"), lit(("str", cps(rnd.choice([",", " ", "-", "ab"])))))
+        if k == 11:
+            return call("flat_map", lit(("arr", [("arr", [("num", "1"), ("num", "2")]), ("num", "3"), ("arr", [])])), dict(SELF)) if el == "num" else g(ty, depth - 2)
+        if k == 12 and el == "str":
+            return call("map", g("list:num"), call("stringify", dict(SELF)))
+        if k == 13:
+            return call("as_array", g(ty))
+        if k == 14:
+            return call("?", g("bool"), g(ty), g(ty))
+        return g(ty, 0)
+    if base == "obj":
+        k = rnd.randrange(12)
+        key = lambda: lit(("str", cps(rnd.choice(["a", "b", "new", "é", ""]))))
+        if k == 0:
+            return call(rnd.choice(["put", "insert_if_absent", "replace_if_exists"]), g("obj"), key(), g(rnd.choice(["num", "str", "bool"])))
+        if k == 1:
+            return call("filter_keys", g("obj"), call(rnd.choice(["=", "!=", "<"]), dict(SELF), key()))
+        if k == 2:
+            return call("filter_values", g("obj"), call(rnd.choice(["number?", "string?"]), dict(SELF)))
+        if k == 3:
+            return call("map_values", g("obj"), call("stringify", dict(SELF)) if rnd.random() < 0.5 else call("as_number", dict(SELF)))
+        if k == 4:
+            return call("map_keys", g("obj"), call("concat", lit(("str", cps("p-"))), dict(SELF)))
+        if k == 5:
+            return call(rnd.choice(["take", "take_last"]), g("obj"), g("count"))
+        if k == 6:
+            return call(rnd.choice(["sort_by_keys", "sort_by_values"]), g("obj"))
+        if k == 7:
+            return call("group_by", g("list:obj"), ext(["g"]))
+        if k == 8:
+            return call("sub", g("obj"), g("count"), g("count"))
+        if k == 9:
+            return call("get", g("list:obj"), g("count"))
+        if k == 10:
+            return call("as_object", g("obj"))
+        return call("sort_by_values_by", g("obj"), call("abs", dict(SELF)))
+    # any
+    k = rnd.randrange(9)
+    if k == 0:
+        return call("?", g("bool"), g("any"), g("any"))
+    if k == 1:
+        return call("default", g("any"), g("any"))
+    if k == 2:
+        first = g("list:num")
+        return call("|", first, call(rnd.choice(["first", "last", "size", "sum"]), dict(SELF)))
+    if k == 3:
+        env.fresh[0] += 1
+        nm = "v%d" % env.fresh[0]
+        vt = rnd.choice(["num", "str", "bool", "list:num"])
+        val = g(vt)
+        e2 = Env(env.up, env.cur, dict(env.vars, **{nm: vt}), env.macros, env.fresh)
+        return call("set", lit(("str", cps(nm))), val, gen_typed(rnd, table, rnd.choice(["num", "str", "any", vt]), depth - 1, e2))
+    if k == 4:
+        env.fresh[0] += 1
+        nm = "m%d" % env.fresh[0]
+        mt = rnd.choice(["num", "str", "bool"])
+        body = gen_typed(rnd, table, mt, 0, Env(env.up, env.cur, env.vars, {}, env.fresh))      # a leaf: means the same wherever it is expanded
+        if body["op"] == "ext" and not body["path"]:
+            body = lit(("num", "1"))
+        e2 = Env(env.up, env.cur, env.vars, dict(env.macros, **{nm: mt}), env.fresh)
+        return call("define", lit(("str", cps(nm))), body, gen_typed(rnd, table, rnd.choice(["num", "str", "any", mt]), depth - 1, e2))
+    if k == 5:
+        return call("parse", lit(("str", cps(rnd.choice(["[1, 2]", "{\"a\": 1}", "12", " true ", "\"x\"", "1.5", "[", "1 2", "nul"])))))
+    if k == 6:
+        return call("get", g("obj"), lit(("str", cps(rnd.choice(["a", "b", "zz"])))))
+    return g(rnd.choice(["num", "str", "bool", "list:num", "obj"]))
+
+
+def uses_parent_in_macro(e):
+    return False
